@@ -157,7 +157,8 @@ CLAIMED["C12"] = {
              "buddy tree's bookkeeping on small order values: every node starts with order total - depth, the search goes right exactly when the "
              "left subtree cannot hold the request, every ancestor gets the larger of its children's values, freeing sets a parent to order + 1 "
              "only when both halves are wholly free, and the size reported for a freed block is 1 << its order; the requested size reaches the "
-             "size-class computation at full width (no narrowing conversion of the size itself). NOT "
+             "size-class computation at full width (no narrowing conversion of the size itself); a new arena is inserted into the sorted arena "
+             "table at the index equal to the number of lower addresses (interpreted for 0..5 arenas). NOT "
              "decided: that blocks are inside allocator memory, aligned, disjoint and stable over whole operation histories (the rules above are "
              "the local steps such an argument would use, not the argument)."),
     "note": TRUST,
@@ -212,7 +213,9 @@ CLAIMED["C14"] = {
              "message destination; lp_init and lp_fini iterate exactly [lid_thread_first, lid_thread_end) running the per-LP init/fini once; both "
              "ends of a partition are searched with the same (parts, start, total); a routing macro of another shape is evaluated on small "
              "numbers and a value outside 0..parts-1, or an end sentinel below parts, is a violation; the LP table holds n_lps_node entries and "
-             "is shifted by the first hosted id after allocation and back before release. NOT "
+             "is shifted by the first hosted id after allocation and back before release; lp_global_init and the head of lp_init, interpreted for "
+             "1..12 LPs x 1..4 ranks x 1..4 threads, give ranges that tile the identifier space and agree with the routing macros; the product "
+             "inside a routing macro is 64 bits wide. NOT "
              "decided: 'no idle thread when LPs >= threads' and overflow for identifiers near 2^64."),
     "note": TRUST + " Counts (n_nodes, n_threads, lps, n_lps_node) are assumed positive; lps == 0 is confirmed rejected by RootsimInit.",
 }
